@@ -61,6 +61,8 @@ def llm_fn_for(path):
 def explore_world(task):
     if task[0] == "state-mode":
         return explore_state_mode(task)
+    if task[0] == "message-shapes":
+        return explore_message_shapes(task)
     if str(task[0]).startswith("2.x"):
         from vf.props import c01_v2
         return c01_v2.explore_world(task)
@@ -261,6 +263,51 @@ def explore_state_mode(task):
     return res
 
 
+
+# ----------------------------------------------------------------------------- message list shapes
+def explore_message_shapes(task):
+    """The user message of the turn is not the last element of `messages`: it is followed by an `event` message (the shape
+    shown in the docstring of generate_async).  It is a user message like any other: no LLM call may see it before the
+    input rails have, and a rejection ends the turn."""
+    _tag, dialog = task
+    res = {"worlds": 1, "turns": 0, "conversations": 0, "rejections": 0, "rewrites": 0, "llm_calls": 0, "rail_calls": 0, "viol": []}
+    world = rw.v1_world(in_order=("in1",), out_order=(), dialog=dialog)
+    shapes = {
+        "user-then-event": lambda u: [{"role": "user", "content": u}, {"role": "event", "event": {"type": "UserSilent"}}],
+        "context-user-then-event": lambda u: [{"role": "context", "content": {"k": "v"}}, {"role": "user", "content": u}, {"role": "event", "event": {"type": "UserSilent"}}],
+        "answered-turn-then-user-then-event": lambda u: [{"role": "user", "content": "U0 earlier"}, {"role": "assistant", "content": "earlier reply"}, {"role": "user", "content": u},
+                                                         {"role": "event", "event": {"type": "UserSilent"}}],
+    }
+    n = 0
+    for shape, mk in shapes.items():
+        for v in ("A", "R"):
+            n += 1
+            u = f"UMS{n}q hello"
+            turn = rw.run_turn(world, mk(u), {"in1": v}, llm_fn_for("llm" if dialog else "general"))
+            res["turns"] += 1
+            res["conversations"] += 1
+            info = {"engine": "E3-world", "prop": "C01", "version": "1.0", "mode": "message-shapes", "dialog": dialog, "shape": shape, "verdict": v}
+            if turn.exc is not None:
+                res["viol"].append((f"generate-raised:v1:message-shape:{shape}", repr(turn.exc), info))
+                continue
+            seen_by_rails = [a["text"] for a in turn.actions if a.get("rail") == "in1"]
+            res["rail_calls"] += len(seen_by_rails)
+            res["llm_calls"] += len(turn.llm_calls)
+            leaked = [str(c["task"]) for c in turn.llm_calls if u in c["prompt"]]
+            if leaked and (u not in seen_by_rails or v == "R"):
+                res["viol"].append((f"unchecked-user-message-reached-the-llm:v1:message-shape:{shape}",
+                                    f"messages shape `{shape}`, verdict {v}: LLM tasks {leaked} saw the user text, input rails saw {seen_by_rails}; reply {turn.text!r}", info))
+            if v == "R":
+                res["rejections"] += 1
+    seen, uniq = set(), []
+    for x in res["viol"]:
+        if x[0] not in seen:
+            seen.add(x[0])
+            uniq.append(x)
+    res["viol"] = uniq
+    return res
+
+
 def tasks(tier):
     out = []
     if tier == "quick":
@@ -288,6 +335,7 @@ def tasks(tier):
                 out.append(("1.0", order, dialog, exc, 2, "param"))
     for dialog in (False, True):
         out.append(("state-mode", dialog, 2 if tier == "quick" else 3))
+        out.append(("message-shapes", dialog))
     try:
         from vf.props import c01_v2
         out.extend(c01_v2.tasks(tier))
